@@ -157,20 +157,20 @@ Qed.
 
 (* a three-digit code *)
 Definition code3 (c : bytes) : Prop :=
-  exists d1 d2 d3, c = [d1; d2; d3] /\ is_digit d1 = true /\ is_digit d2 = true /\ is_digit d3 = true.
+  exists d1 d2 d3, c = [d1; d2; d3] /\ (((49 <=? d1) && (d1 <=? 53)) = true /\ is_digit d1 = true) /\ is_digit d2 = true /\ is_digit d3 = true.
 
 Lemma cl_code_ok_code3 : forall c, code_ok c = true -> forallb is_digit c = true -> code3 c.
 Proof.
   intros c H D. destruct c as [|a [|b [|d [|? ?]]]]; try discriminate.
   cbn in D. repeat (apply andb_prop in D; destruct D as [? D]).
-  exists a, b, d. auto.
+  exists a, b, d. cbn in H. auto.
 Qed.
 
 Lemma cl_parse_line : forall c sep l,
   code3 c -> is_sep sep = true ->
   parse_reply_line (c ++ [sep] ++ l ++ [13]) = Some (c, sep, l).
 Proof.
-  intros c sep l (d1 & d2 & d3 & -> & H1 & H2 & H3) Hs.
+  intros c sep l (d1 & d2 & d3 & -> & [H1 _] & H2 & H3) Hs.
   unfold parse_reply_line.
   replace ([d1; d2; d3] ++ [sep] ++ l ++ [13]) with ((d1 :: d2 :: d3 :: sep :: l) ++ [13]) by reflexivity.
   rewrite cl_strip_cr_snoc. rewrite H1, H2, H3, Hs. reflexivity.
@@ -181,7 +181,7 @@ Proof. intros d H. unfold is_digit in H. lia. Qed.
 
 Lemma cl_code3_no_lf : forall c, code3 c -> no_lf c = true.
 Proof.
-  intros c (d1 & d2 & d3 & -> & H1 & H2 & H3). cbn.
+  intros c (d1 & d2 & d3 & -> & [_ H1] & H2 & H3). cbn.
   rewrite !cl_digit_not_lf by assumption. reflexivity.
 Qed.
 
